@@ -176,7 +176,7 @@ func runCheckFinality(ctx *action.Context, tx action.RawTx) (bool, action.Respon
 
 	//Handle when tracker has 67% No votes
 	if tracker.Failed() {
-		if tracker.Type == trackerlib.ProcessTypeLock {
+		if tracker.Type == trackerlib.ProcessTypeLock || tracker.Type == trackerlib.ProcessTypeLockERC {
 			err := failedLock(ctx, tracker, *f)
 			if err != nil {
 				return false, action.Response{Log: errors.Wrap(err, "unable to finalize lock TX").Error()}
